@@ -201,6 +201,10 @@ def _images(ctx):
                                             _fmt(b[3])),
                   case=None if b is None else {'image': b[0],
                                                'schedule': b[1]})
+    _registration(rep, results, meta)
+
+
+def _registration(rep, results, meta):
     # registration (from the clean-image runs, which carry the check names)
     regs = {}
     for (cls, key, sched), res in results.items():
@@ -223,7 +227,11 @@ def _images(ctx):
     foot = [res for (cls, key, sched), res in results.items()
             if meta[key][0] == 'vmdk' and 'footer consistent' in
             meta[key][1] and 'failure' not in res]
-    rep.check('R2.3', 'checks[vmdk footer]', bool(foot) and all(
+    if not foot:
+        rep.info('R2.3', 'checks[vmdk footer]', 'no evaluable run of an '
+                 'image with a footer')
+        return
+    rep.check('R2.3', 'checks[vmdk footer]', all(
         'footer' in (r.get('checks') or ()) and 'footer' in r['regions']
         for r in foot), 'an image announcing a footer gets the footer '
         'region and the footer check')
